@@ -208,6 +208,15 @@ func tryCreateDateTimestamp(year, month, day int, precision TimestampPrecision) 
 }
 
 func tryCreateTimestamp(ts []int, nsecs int, overflow bool, offset, sign int64, precision TimestampPrecision, fractionPrecision uint8) (Timestamp, error) {
+	// time.Date normalises out-of-range fields (minute 60 becomes the next hour); only the date
+	// is compared with the result below, so the remaining fields are range-checked here.
+	if ts[0] < 1 || ts[0] > 9999 || ts[3] < 0 || ts[3] > 23 || ts[4] < 0 || ts[4] > 59 || ts[5] < 0 || ts[5] > 59 {
+		return Timestamp{}, fmt.Errorf("ion: invalid timestamp")
+	}
+	if offset <= -24*60 || offset >= 24*60 {
+		return Timestamp{}, fmt.Errorf("ion: invalid timestamp offset")
+	}
+
 	date := time.Date(ts[0], time.Month(ts[1]), ts[2], ts[3], ts[4], ts[5], nsecs, time.UTC)
 	// time.Date converts 2000-01-32 input to 2000-02-01
 	if ts[0] != date.Year() || time.Month(ts[1]) != date.Month() || ts[2] != date.Day() {
